@@ -63,6 +63,24 @@ theorem mt_write_sole {n : Nat} {s s' : St} {tid t b : Nat} {val : List Nat} (h 
   obtain ⟨a1, a2, a3, blk, a4, a5⟩ := inv.writing tid t b hw
   exact ⟨by rw [← inv.cnt b blk a4]; exact a5, a3, a2, a1, blk, a4⟩
 
+/-- never modified in place while another handle refers to it: a step of ANY thread leaves the payload
+    (kind and content) seen through every handle `v` that the step does not reassign unchanged -- the
+    only exception is the in-place write of the thread that owns `v`, through `v` itself (and then
+    `v` is the only handle of that block, `mt_write_sole`).  In particular no step of another
+    thread ever changes what a handle designates. -/
+theorem mt_view_stable {n : Nat} {s s' : St} {tid : Nat} {a : Act} {v : Nat} (h : Reach n s)
+    (hs : astep s tid a = some s') (hv : v < s.n) (hsame : s'.slots v = s.slots v)
+    (hnw : ∀ t b, s.pc tid = .writing t b → t ≠ v) : view s' v = view s v := by
+  have inv := inv_reach h
+  simp only [view, hsame]
+  cases hsl : s.slots v with
+  | none => rfl
+  | inl tag val => rfl
+  | blk b =>
+    obtain ⟨blk, hb⟩ := inv.live v b hv hsl
+    obtain ⟨blk', hb', e1, e2, _⟩ := content_stable inv hs hv hsl hb hnw
+    simp only [hb, hb', e1, e2]
+
 /-- the same for explicit schedules: a schedule is a list of (thread, step) -/
 theorem mt_sched_safe {n : Nat} (sched : List (Nat × Act)) {s : St} (h : runSched (init n) sched = some s) :
     s.viol = 0 ∧ (∀ b, s.freed b ≤ 1) ∧ (∀ b blk, s.heap b = some blk → blk.ref = handles s b) := by
